@@ -10,7 +10,10 @@ implemented (third-party rv_ltl) would do.
 Binding (replay): each formula is compiled into `require <formula>` whose atoms are
 `tv("a")`, `tv("b")` -- lookups into a step-indexed truth table owned by the harness --
 (a) at top level, (b) in the setup block of a sub-scenario started from a compose block at
-step s.  Every trace is run with the DummySimulator; observed: rejected at scene
+step s, (c) executed inside a compose block after k `wait`s (k = 0, 1, 2: the offset of the
+step in which the statement takes effect), in the top-level scenario and in a sub-scenario
+started at run time that ends by its compose block finishing / `terminate after` / the
+parent's `do ... for` / the end of the simulation.  Every trace is run with the DummySimulator; observed: rejected at scene
 generation / rejected at simulation time t / accepted.  Expected: accepted iff Sat; a
 rejection before the last step only where Doomed; at once where demanded.  The tree Scenic
 builds from either parenthesisation must be the formula (else all traces are run for that
@@ -26,7 +29,7 @@ from common import Check, MachineryError, REPO, pmap, run_tlc, scratch, seed
 import gen_temporal as G
 
 INV_MAIN = [
-    "TypeOK", "MonitorExact", "ImplExactUnlessTrigger", "RejectSound", "DoomSound", "DemandExact",
+    "TypeOK", "NothingBeforeEffect", "MonitorExact", "ImplExactUnlessTrigger", "RejectSound", "DoomSound", "DemandExact",
     "CurrentStepOnly", "DiffOnlyUnderTrigger", "OutcomeVerdict", "EmitForm", "EmitCase",
 ]
 INV_LEMMA = [
@@ -49,9 +52,13 @@ def cfg(invs, props=()):
 HELPER = '''"""Truth table read by the generated C11 programs (owned by the harness)."""
 TABLE = {"a": [True], "b": [True]}
 END = 0        # done() becomes true at this simulation time
-START = 0      # number of `wait`s before the sub-scenario is started
-TAIL = 0       # number of `wait`s after it
+START = 0      # `wait`s in a compose block before its `require`
+TAIL = 0       # `wait`s in that compose block after it
+PRE = 0        # `wait`s of the parent before the sub-scenario is started
+POST = 0       # `wait`s of the parent after it
 SUBLEN = 0     # `terminate after SUBLEN steps` of the sub-scenario
+DUR = 0        # `do Sub() for DUR steps`
+WHERE = 0      # compose placements: 0 top-level compose, 1 `do Sub()`, 2 `do Sub() for`
 READS = []     # (atom, time) in evaluation order
 
 
@@ -82,6 +89,22 @@ def tail():
 
 def sublen():
     return SUBLEN
+
+
+def pre():
+    return PRE
+
+
+def post():
+    return POST
+
+
+def dur():
+    return DUR
+
+
+def where():
+    return WHERE
 '''
 
 TOP = """from vlog_c11 import tv, done
@@ -90,7 +113,7 @@ require {phi}
 terminate when done()
 """
 
-SUB = """from vlog_c11 import tv, start, tail, sublen
+SUB = """from vlog_c11 import tv, pre, post, sublen
 scenario Sub():
     setup:
         require {phi}
@@ -99,12 +122,48 @@ scenario Main():
     setup:
         ego = new Object
     compose:
-        for _i in range(start()):
+        for _p in range(pre()):
             wait
         do Sub()
-        for _j in range(tail()):
+        for _q in range(post()):
             wait
 """
+
+# placement (c): the statement is executed inside a compose block, after start() waits:
+# where() = 0 in the top-level scenario, 1 / 2 in a sub-scenario started at run time
+COMP = """from vlog_c11 import tv, done, start, tail, pre, post, sublen, dur, where
+scenario Sub():
+    setup:
+        terminate after sublen() steps
+    compose:
+        for _i in range(start()):
+            wait
+        require {phi}
+        for _j in range(tail()):
+            wait
+scenario Main():
+    setup:
+        ego = new Object
+        terminate when done()
+    compose:
+        if where() == 0:
+            for _i in range(start()):
+                wait
+            require {phi}
+            for _j in range(tail()):
+                wait
+        else:
+            for _p in range(pre()):
+                wait
+            if where() == 1:
+                do Sub()
+            else:
+                do Sub() for dur() steps
+            for _q in range(post()):
+                wait
+"""
+
+TEMPLATES = {"top": TOP, "sub": SUB, "ctop": COMP, "csub": COMP}
 
 _helper_ready = False
 
@@ -177,20 +236,60 @@ def decode(tr):
     return [bool(c & 1) for c in tr], [bool(c & 2) for c in tr]
 
 
-def plan(place, idx, L):
-    """How trace number idx of length L is run: (start step, tail, ending mode)."""
+def plan(place, n, L):
+    """How trace number n of length L is run.  dict(k, s, post, mode): k = steps of the
+    requirement's scenario before the statement takes effect, s = steps before that scenario
+    starts, post = steps of the parent after it, mode = how the scenario ends."""
     if place == "top":
-        mode = "tw" if (L == 1 or idx % 2 == 0) else "ms"
-        return 0, 0, mode
-    s = idx % 3
-    tl = (idx // 3) % 2
-    mode = "ta" if (idx % 5 != 4 or s + L - 1 == 0) else "ms"
-    if mode == "ms":
-        tl = 0
-    return s, tl, mode
+        return {"k": 0, "s": 0, "post": 0, "mode": "tw" if (L == 1 or n % 2 == 0) else "ms"}
+    if place == "sub":
+        s = n % 3
+        mode = "ta" if (n % 5 != 4 or s + L - 1 == 0) else "ms"
+        return {"k": 0, "s": s, "post": (n // 3) % 2 if mode == "ta" else 0, "mode": mode}
+    c = G.compose_plan(place, n, L)
+    c["post"] = (n // 2) % 2 if (place == "csub" and c["mode"] != "ms") else 0
+    return c
 
 
-def run_one(V, scenario, place, tr, idx):
+BIG = 10**6
+
+
+def configure(V, place, tr, c):
+    """Set the helper module for one run; returns maxSteps."""
+    ta, tb = decode(tr)
+    L = len(tr)
+    k, s, mode = c["k"], c["s"], c["mode"]
+    first = s + k  # simulation time of the first observed step
+    # outside the window of the requirement the table holds the opposite of the nearest
+    # column, so that reading an atom in a wrong step is visible
+    V.TABLE = {
+        "a": [not ta[0]] * first + ta + [not ta[-1]] * (L + 10),
+        "b": [not tb[0]] * first + tb + [not tb[-1]] * (L + 10),
+    }
+    V.START, V.TAIL, V.PRE, V.POST = k, 0, s, c["post"]
+    V.END, V.SUBLEN, V.DUR, V.WHERE = 10**9, BIG, BIG, 0
+    V.READS.clear()
+    last = first + L - 1  # simulation time of the last observed step
+    maxSteps = last if mode == "ms" else None
+    if place == "top":
+        if mode == "tw":
+            V.END = last
+    elif place == "sub":
+        if mode == "ta":
+            V.SUBLEN = L - 1
+    else:
+        V.WHERE = 0 if place == "ctop" else (2 if mode == "for" else 1)
+        V.TAIL = L - 1 if mode == "cf" else L + 2
+        if mode == "tw":
+            V.END = last
+        elif mode == "ta":
+            V.SUBLEN = k + L - 1
+        elif mode == "for":
+            V.DUR = k + L
+    return maxSteps
+
+
+def run_one(V, scenario, place, tr, c):
     """Run one trace.  Returns the observed outcome as a list:
     ["gen"] | ["rej", at] | ["acc", L] | ["exc", type, message]   (at: 1-based step of the trace)"""
     from scenic.core.distributions import RejectionException
@@ -207,19 +306,8 @@ def run_one(V, scenario, place, tr, idx):
                 self.rej = e.simulation.currentTime
                 raise
 
-    ta, tb = decode(tr)
     L = len(tr)
-    s, tl, mode = plan(place, idx, L)
-    # outside the window of the requirement the table holds the opposite of the nearest
-    # column, so that reading an atom in a wrong step is visible
-    pre_a, pre_b = [not ta[0]] * s, [not tb[0]] * s
-    post = tl + 2
-    V.TABLE = {"a": pre_a + ta + [not ta[-1]] * post, "b": pre_b + tb + [not tb[-1]] * post}
-    V.START, V.TAIL = s, tl
-    V.END = s + L - 1 if mode == "tw" else 10**9
-    V.SUBLEN = L - 1 if mode == "ta" else 10**6
-    V.READS.clear()
-    maxSteps = s + L - 1 if mode == "ms" else None
+    maxSteps = configure(V, place, tr, c)
     try:
         try:
             scene, _ = scenario.generate(maxIterations=1, verbosity=0)
@@ -230,7 +318,12 @@ def run_one(V, scenario, place, tr, idx):
         if r is None:
             if sim.rej is None:
                 return ["exc", "None", "simulate returned None without a rejection"]
-            return ["rej", sim.rej - s + 1]
+            at = sim.rej - (c["s"] + c["k"]) + 1
+            if c["mode"] == "for" and at == L + 1:
+                # the parent's `for` condition fires one step after the sub-scenario's last
+                # step; the end-of-scenario check of the requirement is made then
+                at = L
+            return ["rej", at]
         return ["acc", L]
     except Timeout:
         raise
@@ -284,8 +377,7 @@ def check_formula(item):
     V = helper()
     f = item["f"]
     forminfo = item["form"]
-    cases = item["cases"]
-    out = {"sims": 0, "agree": 0, "findings": [], "parse": {}, "compiled": [], "placements": []}
+    out = {"sims": 0, "agree": 0, "findings": [], "parse": {}, "compiled": [], "placements": [], "by_config": {}}
     signal.signal(signal.SIGVTALRM, _on_vtalrm)
     # on a loaded machine a compose step can exceed Scenic's 10 s wall-clock warning threshold
     import warnings
@@ -303,16 +395,26 @@ def check_formula(item):
     def compile_(template, txt):
         return scenic.scenarioFromString(template.format(phi=txt))
 
+    rot = item.get("rot", 0)
+    base = item["cases"][0]  # offset 0: all windows of the tier's length bound
+
     def run_all(scenario, place, txtmode):
         out["placements"].append([place, txtmode])
-        for idx, c in enumerate(cases):
-            tr = c["tr"]
+        compose = place in ("ctop", "csub")
+        traces = [c["tr"] for c in base if not compose or len(c["tr"]) <= G.COMPOSE_MAXLEN]
+        for idx, tr in enumerate(traces):
             L = len(tr)
+            if compose and item.get("thin") and (idx + rot + (place == "csub")) % 2:
+                continue  # quick tier: each (formula, trace) goes to one of the two compose placements
+            # compose placements rotate k / ending with the trace AND the formula
+            cf = plan(place, idx + (rot if compose else 0), L)
+            c = item["cases"][cf["k"]][idx] if compose else base[idx]
+            assert c["tr"] == tr and c["off"] == cf["k"]
             signal.setitimer(signal.ITIMER_VIRTUAL, 30)
             try:
-                o = run_one(V, scenario, place, tr, idx)
+                o = run_one(V, scenario, place, tr, cf)
                 if not allowed(o, place, L, c):
-                    o2 = run_one(V, scenario, place, tr, idx)  # once more before reporting
+                    o2 = run_one(V, scenario, place, tr, cf)  # once more before reporting
                     if o2 != o:
                         o = ["flaky", o, o2]
             except Timeout:
@@ -320,6 +422,7 @@ def check_formula(item):
             finally:
                 signal.setitimer(signal.ITIMER_VIRTUAL, 0)
             out["sims"] += 1
+            out["by_config"][f"{place}/k{cf['k']}/{cf['mode']}"] = out["by_config"].get(f"{place}/k{cf['k']}/{cf['mode']}", 0) + 1
             if allowed(o, place, L, c):
                 out["agree"] += 1
                 continue
@@ -327,19 +430,18 @@ def check_formula(item):
             if forminfo["uao"] and c["impl"] != c["mon"] and o == impl_outcome(c, place):
                 known = "until-at-offset"
             elif (
-                o[0] == "exc" and o[1] == "RuntimeError" and place == "sub"
+                o[0] == "exc" and o[1] == "RuntimeError" and place != "top"
                 and forminfo["nontemporal"] and G.has_op(f, ("implies",))
             ):
                 known = "implies-nontemporal-dynamic"
-            s, tl, mode = plan(place, idx, L)
             finding(
                 "verdict",
-                f"{place}/{txtmode} `{texts[txtmode]}` trace {tr}: observed {o}, spec: sat={c['sat']} "
+                f"{place}/{txtmode} `{texts[txtmode]}` trace {tr} (statement effective at step {cf['k']} of its scenario, "
+                f"scenario started at {cf['s']}, ends by {cf['mode']}): observed {o}, spec: sat={c['sat']} "
                 f"doomed-from={c['doom']} demanded-at={c['demand']}",
                 known,
                 {"place": place, "text": texts[txtmode], "trace": tr, "observed": o, "expected": c,
-                 "as_implemented": impl_outcome(c, place), "start": s, "tail": tl, "ending": mode,
-                 "reads": list(V.READS)[:40]},
+                 "as_implemented": impl_outcome(c, place), "config": cf, "reads": list(V.READS)[:40]},
             )
 
     top = {}
@@ -393,16 +495,26 @@ def check_formula(item):
                     None, {"text": texts[m], "place": "sub"})
         else:
             run_all(sub, "sub", m)
+        # placement (c): executed inside a compose block (one program for both scenarios)
+        try:
+            comp = compile_(COMP, texts[m])
+        except Exception as e:
+            finding("parse", f"compose-block program for `{texts[m]}` does not compile: {type(e).__name__}: {e}"[:300],
+                    None, {"text": texts[m], "place": "ctop"})
+        else:
+            run_all(comp, "ctop", m)
+            run_all(comp, "csub", m)
     return out
 
 
 # --------------------------------------------------------------------------- main
 
 
-def run_spec(ck, forms, maxlen, lemmas, extra=1, workers=6, heap="2g"):
+def run_spec(ck, forms, maxlen, lemmas, extra=1, workers=6, heap="2g", offsets=(0,), maxlenoff=None):
     path = os.path.join(scratch(), f"c11-batch-{len(ck.cov['tlc_runs'])}.json")
     with open(path, "w") as fh:
-        json.dump({"forms": forms, "maxlen": maxlen, "extra": extra, "lemmas": 1 if lemmas else 0}, fh)
+        json.dump({"forms": forms, "maxlen": maxlen, "extra": extra, "lemmas": 1 if lemmas else 0,
+                   "offsets": list(offsets), "maxlenoff": maxlenoff or maxlen}, fh)
     res = run_tlc(
         "Temporal",
         cfg(INV_LEMMA, ["DoomMonotone"]) if lemmas else cfg(INV_MAIN),
@@ -413,7 +525,7 @@ def run_spec(ck, forms, maxlen, lemmas, extra=1, workers=6, heap="2g"):
         heap=heap,
     )
     ck.add_tlc("Temporal(lemmas)" if lemmas else "Temporal", res)
-    for a in ("Init", "Observe", "Stop"):
+    for a in ("Init", "Observe", "Stop") + (("Wait",) if max(offsets) > 0 else ()):
         if res.coverage.get(a, (0, 0))[1] == 0:
             raise MachineryError(f"Temporal action {a} never taken (vacuous model)")
     return res
@@ -426,15 +538,21 @@ def main(tier, forms=None, lemma_forms=None):
     if forms is None:
         forms = G.batch(tier, seed())
     ck.cov["rule"] = (
-        "a case is one (formula, placement); formulas: all of depth <= 1, the forms quoted in the reference, "
+        "a case is one (formula, placement), placements: top level / setup block of a run-time sub-scenario / compose block "
+        "of the top-level scenario / compose block of a run-time sub-scenario; formulas: all of depth <= 1, the forms quoted in the reference, "
         "pointed shapes, and " + ("a seeded sample of depth 2 and 3" if tier == "quick" else "all of depth 2 plus a seeded sample of depth 3")
-        + f"; each case runs every trace of length <= {maxlen} over two atoms; non-trivial = the formula has a temporal "
+        + f"; each case runs every trace of length <= {maxlen} (compose-block placements: <= {G.COMPOSE_MAXLEN}) over two atoms; non-trivial = the formula has a temporal "
         "operator and both verdicts occur among its traces; distinct by formula and placement"
     )
     ck.assumptions += [
         "atoms are pure lookups in a step-indexed truth table; two atoms; the DummySimulator",
-        "placements: (a) top level, (b) setup block of a sub-scenario started from a compose block at step 0..2; "
-        "placement (c) (require executed inside a compose block) is not exercised",
+        "placements: (a) top level, (b) setup block of a sub-scenario started from a compose block at step 0..2, "
+        "(c) executed in a compose block after k = 0..2 waits, in the top-level scenario (ending: compose block finishes / "
+        "terminate when / maxSteps) and in a sub-scenario started at run time at step 0..1 (ending: compose block finishes / "
+        "terminate after / parent's do-for / maxSteps)",
+        "compose-block placements run one (k, ending) combination per (formula, trace), rotating with the trace number and "
+        "the formula number, on the windows of length <= 3 (quick: each (formula, trace) goes to one of the two compose "
+        "placements, alternating); the spec's case record carries the offset k",
         "Doomed looks Depth(f)+1 steps ahead; TLC checks on the lemma batch that one more step changes nothing",
         "the Scenic text of a formula is printed by Temporal.tla (Show); gen_temporal.text() only substitutes the atoms",
         "the fully parenthesised text is run on all traces only when Scenic builds a different tree from it",
@@ -456,6 +574,8 @@ def main(tier, forms=None, lemma_forms=None):
     # ---- per chunk of formulas: TLC emits the expected results, the real code is run on them
     helper()
     ntr = len(G.all_traces(maxlen))
+    ntr_off = len(G.all_traces(G.COMPOSE_MAXLEN))
+    by_config = {}
     sims = agree = ndiff = 0
     parse_stats = {"same": 0, "differs": 0, "error": 0, "unreadable": 0}
     documented = {G.key(f): doc for f, doc in G.DOCUMENTED}
@@ -463,22 +583,32 @@ def main(tier, forms=None, lemma_forms=None):
     chunk = 700 if maxlen == 3 else 400
     for base in range(0, len(forms), chunk):
         part = forms[base : base + chunk]
-        res = run_spec(ck, part, maxlen, lemmas=False, workers=6 if tier == "quick" else 12, heap="2g" if tier == "quick" else "6g")
+        res = run_spec(ck, part, maxlen, lemmas=False, workers=6 if tier == "quick" else 12, heap="2g" if tier == "quick" else "6g",
+                       offsets=G.COMPOSE_OFFSETS, maxlenoff=G.COMPOSE_MAXLEN)
         forminfo, cases = {}, {}
         for o in res.outputs:
             if o["t"] == "form":
                 forminfo[o["fid"] - 1] = o
             else:
-                cases.setdefault(o["fid"] - 1, []).append({k: o[k] for k in ("tr", "sat", "doom", "demand", "impl", "mon")})
+                cases.setdefault(o["fid"] - 1, {}).setdefault(o["off"], []).append(
+                    {k: o[k] for k in ("off", "tr", "sat", "doom", "demand", "impl", "mon")})
         del res
         for i in range(len(part)):
-            if i not in forminfo or len(cases.get(i, ())) != ntr:
-                raise MachineryError(f"TLC output incomplete for formula {G.key(part[i])}: {len(cases.get(i, ()))}/{ntr} traces")
-            cases[i].sort(key=lambda c: (len(c["tr"]), c["tr"]))
-            ndiff += sum(1 for c in cases[i] if c["impl"] != c["mon"])
+            for k in G.COMPOSE_OFFSETS:
+                want = ntr if k == 0 else ntr_off
+                got = len(cases.get(i, {}).get(k, ()))
+                if i not in forminfo or got != want:
+                    raise MachineryError(f"TLC output incomplete for formula {G.key(part[i])} offset {k}: {got}/{want} traces")
+                cases[i][k].sort(key=lambda c: (len(c["tr"]), c["tr"]))
+            for k in G.COMPOSE_OFFSETS[1:]:
+                # the offset never reaches Sat / Doomed / Mon: same record for the same window
+                for c0, ck_ in zip(cases[i][0], cases[i][k]):
+                    if {**c0, "off": k} != ck_:
+                        raise MachineryError(f"Temporal.tla: record depends on the offset: {c0} vs {ck_}")
+            ndiff += sum(1 for c in cases[i][0] if c["impl"] != c["mon"])
             any_uao = any_uao or forminfo[i]["uao"]
-        items = [{"f": part[i], "form": forminfo[i], "cases": cases[i]} for i in range(len(part))]
-        results = pmap(check_formula, items, procs=4 if tier == "quick" else 6, chunk=6)
+        items = [{"f": part[i], "form": forminfo[i], "cases": cases[i], "rot": base + i, "thin": tier == "quick"} for i in range(len(part))]
+        results = pmap(check_formula, items, procs=6, chunk=6)
         for it, r in zip(items, results):
             f = it["f"]
             sims += r["sims"]
@@ -486,7 +616,9 @@ def main(tier, forms=None, lemma_forms=None):
             for m, v in r["parse"].items():
                 if v:
                     parse_stats[v] = parse_stats.get(v, 0) + 1
-            verdicts = {c["sat"] for c in it["cases"]}
+            for kk, vv in r["by_config"].items():
+                by_config[kk] = by_config.get(kk, 0) + vv
+            verdicts = {c["sat"] for c in it["cases"][0]}
             for place, _m in r["placements"]:
                 ck.case((G.key(f), place), G.is_temporal(f) and len(verdicts) == 2)
             groups = {}
@@ -498,9 +630,9 @@ def main(tier, forms=None, lemma_forms=None):
                     replay = {"property": "C11", "formula": f, "formula_text": G.key(f), "documented_as": documented.get(G.key(f))}
                     replay.update({k: v for k, v in fd.items() if k != "known"})
                     if fd["kind"] == "parse":
-                        replay["program"] = (SUB if fd.get("place") == "sub" else TOP).format(phi=fd.get("text", ""))
+                        replay["program"] = TEMPLATES[fd.get("place") or "top"].format(phi=fd.get("text", ""))
                     else:
-                        replay["program"] = (TOP if fd["place"] == "top" else SUB).format(phi=fd["text"])
+                        replay["program"] = TEMPLATES[fd["place"]].format(phi=fd["text"])
                     if ck.violation(fd["msg"], replay, known_key=known):
                         if n >= 2:
                             break
@@ -510,10 +642,10 @@ def main(tier, forms=None, lemma_forms=None):
                         ck.cov["known_findings_seen"][known] += rest
                         break
             if r["placements"] and G.depth(f) >= 2:
-                last = it["cases"][-1]
+                last = it["cases"][0][-1]
                 ck.sample(
                     {"formula": G.key(f), "scenic": G.text(it["form"]["min"]), "fully_parenthesised": G.text(it["form"]["full"]),
-                     "tree_built": r["parse"], "traces": len(it["cases"]), "placements": r["placements"],
+                     "tree_built": r["parse"], "traces": len(it["cases"][0]), "placements": r["placements"],
                      "example": {"trace": last["tr"], "sat": last["sat"], "doomed_from": last["doom"],
                                  "as_implemented": last["impl"], "corrected_monitor": last["mon"]}},
                     limit=5,
@@ -527,6 +659,7 @@ def main(tier, forms=None, lemma_forms=None):
     ck.cov["simulations"] = sims
     ck.cov["formulas"] = len(forms)
     ck.cov["traces_per_formula"] = ntr
+    ck.cov["simulations_by_placement_offset_ending"] = dict(sorted(by_config.items()))
     ck.cov["parse_check"] = parse_stats
     ck.cov["exhaustive"] = False
     ck.cov["explanation"] = (
@@ -552,12 +685,7 @@ def replay(path):
         return 0
     V = helper()
     sc = scenic.scenarioFromString(d["program"])
-    # find the index that reproduces the recorded plan
-    tr = d["trace"]
-    for idx in range(0, 60):
-        if plan(d["place"], idx, len(tr)) == (d["start"], d["tail"], d["ending"]):
-            print("observed now:", run_one(V, sc, d["place"], tr, idx))
-            break
+    print("observed now:", run_one(V, sc, d["place"], d["trace"], d["config"]))
     return 0
 
 
